@@ -4,7 +4,10 @@
 package balloons
 
 import (
+	"fmt"
 	"sort"
+
+	"github.com/containers/nri-plugins/pkg/utils"
 
 	libmem "github.com/containers/nri-plugins/pkg/resmgr/lib/memory"
 	policyapi "github.com/containers/nri-plugins/pkg/resmgr/policy"
@@ -101,4 +104,25 @@ func VerifSnapshot(b policyapi.Backend) *VerifSnap {
 		s.Balloons = append(s.Balloons, vb)
 	}
 	return s
+}
+
+// VerifHidden renders state that influences later decisions but is not part of the assignments.
+func VerifHidden(b policyapi.Backend) string {
+	p, ok := b.(*balloons)
+	if !ok || p.bpoptions == nil {
+		return ""
+	}
+	var lv []string
+	for k, v := range p.loadVirtDev {
+		lv = append(lv, fmt.Sprintf("%s=%+v", k, *v))
+	}
+	sort.Strings(lv)
+	rd, dd := "", ""
+	if p.reservedBalloonDef != nil {
+		rd = p.reservedBalloonDef.Name
+	}
+	if p.defaultBalloonDef != nil {
+		dd = p.defaultBalloonDef.Name
+	}
+	return fmt.Sprintf("options=%s ifree=%s loads=%v reservedDef=%s defaultDef=%s", utils.DumpJSON(p.bpoptions), p.ifreeCpus, lv, rd, dd)
 }
